@@ -462,6 +462,7 @@ theorem AllReg_step {g : G} (hs : Shape g) (h : AllReg g) (op : Op) : AllReg (st
   | addIfSource o n i => exact AllReg_frame h (addIfSource_keepsW _ _ _ _) (addIfSource_wsame _ _ _ _)
   | addIfSink o n i => exact AllReg_frame h (addIfSink_keepsW _ _ _ _) (addIfSink_wsame _ _ _ _)
   | disconnect w o => exact AllReg_frame h (keepsW_of_eq (disconnect_objs _ _ _)) (disconnect_wsame _ _ _)
+  | wires p n k => exact forEach_pred (P := AllReg) _ (fun g x hg => AllReg_newWire _ _ _ _ hg) _ _ h
 
 theorem AllReg_empty : AllReg {} := fun w wr h => by simp at h
 
